@@ -176,8 +176,14 @@ def text_of(v):
   if k == 'tuple':
     return '(' + ', '.join(text_of(x) for x in v[1]) + (',' if len(v[1]) == 1 else '') + ')'
   if k == 'dict':
-    return '{' + ', '.join(f'{key}: {text_of(x)}' for key, x in v[1]) + '}'
+    items = list(reversed(v[1])) if FLIP[0] else v[1]
+    return '{' + ', '.join(f'{key}: {text_of(x)}' for key, x in items) + '}'
   raise ValueError(v)
+
+
+# When set, dict displays are written / built with their items in reverse order: the same value,
+# reached by inserting the keys in another order (the text of config_str may not depend on it).
+FLIP = [False]
 
 
 def textual(v):
@@ -211,7 +217,8 @@ def live(v):
   if k == 'dict':
     with warnings.catch_warnings():
       warnings.simplefilter('ignore')
-      return dict((ast.literal_eval(key), live(x)) for key, x in v[1])
+      items = list(reversed(v[1])) if FLIP[0] else v[1]
+      return dict((ast.literal_eval(key), live(x)) for key, x in items)
   raise ValueError(v)
 
 
@@ -471,7 +478,11 @@ def check_case(case):
   if perm != order:
     labels.add('permuted')
     gin.clear_config()
-    apply(items, perm)
+    FLIP[0] = True
+    try:
+      apply(items, perm)
+    finally:
+      FLIP[0] = False
     s1p = gin.config_str(width, indent)
     require(s1p == s1, 'order-dependent-text',
             lambda: f'order {order}:\n{s1}\n--- order {perm}:\n{s1p}')
